@@ -1,11 +1,12 @@
 CONSTANTS
-  Subs <- S2
+  Subs <- S1
   Writers <- W1
-  MaxEvents = 3
-  MaxReconnect = 1
+  MaxEvents = 5
+  MaxReconnect = 2
   Styles <- AllStyles
   AtomicAppend = TRUE
   Dev_MemCursorByIndex = TRUE
 SPECIFICATION FairSpec
 INVARIANT TypeOK
 INVARIANT Inv_C16_asis
+PROPERTY Live_Delivered
